@@ -37,7 +37,7 @@ ALIAS = "s1"
 BATCH = 120
 PE = ("stream_property(%s, position(position_and_lines_read(P__,L__))), stream_property(%s, end_of_stream(Eos__))"
       % (ALIAS, ALIAS))
-LOAD = "use_module(library(charsio)), use_module(library(format))."
+LOAD = "use_module(library(charsio)), use_module(library(format)), use_module(library(iso_ext))."
 EOFAS = ["error", "eof_code", "reset"]
 
 
